@@ -188,6 +188,11 @@ func (evm *EVM) Call(caller ContractRef, addr common.Address, input []byte, gas 
 		snapshot = evm.StateDB.Snapshot()
 	)
 	if !evm.StateDB.Exist(addr) {
+		if PrecompiledContractsByzantium[addr] == nil && value.Sign() == 0 {
+			// Calling a non existing account with no value: nothing to run, nothing to transfer.
+			// Do not create (touch) the account: this path is reachable in a static context.
+			return nil, gas, nil
+		}
 		evm.StateDB.CreateAccount(addr)
 	}
 
